@@ -172,6 +172,12 @@ class Engine:
         self.exhaustive = True
         self.pending_left = 0
         self.id_hash = False
+        # second-solver cross-check: every xcheck_every-th verification query is re-decided by cvc5 (0 = off)
+        self.xcheck_every = 0
+        self.xcheck_max = 40
+        self.xcheck_disagreements = []
+        for k in ('xc_asked', 'xc_agree', 'xc_disagree', 'xc_unknown'):
+            self.stats[k] = 0
         self.swallowed_abort = False
 
     # ---- low level
@@ -385,6 +391,8 @@ class Engine:
         goal = z3.Not(c)
         sl = self._slice(goal)
         r, s2 = self._fresh_check(sl + [goal], timeout_ms)
+        if self.xcheck_every and r != z3.unknown and (self.stats['verify_q'] - 1) % self.xcheck_every == 0 and self.stats['xc_asked'] < self.xcheck_max:
+            self._cvc5_crosscheck(sl + [goal], str(r))
         if r == z3.unsat:
             self.stats['proved'] += 1
             if len(sl) < len(self.pc):
@@ -409,6 +417,42 @@ class Engine:
             return 'cex', s2.model()
         self.stats['verify_unknown'] += 1
         return 'unknown', None
+
+    def _cvc5_crosscheck(self, constraints, z3_answer, timeout_ms=5000):
+        """re-decide a verification query (exported as SMT-LIB by z3) with cvc5; a sat/unsat disagreement is a harness error"""
+        try:
+            import cvc5
+        except Exception:
+            return
+        self.stats['xc_asked'] += 1
+        try:
+            sx = z3.Solver()
+            for c in constraints:
+                sx.add(c)
+            txt = sx.to_smt2()
+            slv = cvc5.Solver()
+            slv.setOption('tlimit-per', str(timeout_ms))
+            slv.setLogic('ALL')
+            prs = cvc5.InputParser(slv)
+            prs.setStringInput(cvc5.InputLanguage.SMT_LIB_2_6, txt, 'symx-query')
+            sm = prs.getSymbolManager()
+            ans = 'unknown'
+            while True:
+                cmd = prs.nextCommand()
+                if cmd.isNull():
+                    break
+                out = str(cmd.invoke(slv, sm)).strip()
+                if out in ('sat', 'unsat', 'unknown'):
+                    ans = out
+        except Exception as e:
+            ans = 'unknown'
+        if ans == 'unknown':
+            self.stats['xc_unknown'] += 1
+        elif ans == z3_answer:
+            self.stats['xc_agree'] += 1
+        else:
+            self.stats['xc_disagree'] += 1
+            self.xcheck_disagreements.append(dict(z3=z3_answer, cvc5=ans, query=str(constraints[-1])[:400]))
 
     def path_model(self, extra=()):
         """a model of the current path condition (None if not obtainable)"""
